@@ -15,7 +15,7 @@ Lemma step_unfold H C d st r :
   step H C d st r =
   if r_size r =? 0 then (ROk [], st)
   else if c_noopendir C then
-    match fst (fetch H false d fresh_fd (r_size r) (r_offset r)) with
+    match fst (fetch H (c_rx C) false d fresh_fd (r_size r) (r_offset r)) with
     | RErr e => (RErr e, st)
     | ROk b => (fst (deliver H (c_wrap C) (r_plus r) (r_size r) b true 0 (st_refs st)),
                 mk_state (st_h st) (snd (deliver H (c_wrap C) (r_plus r) (r_size r) b true 0 (st_refs st))))
@@ -23,7 +23,7 @@ Lemma step_unfold H C d st r :
   else
     if negb (hs_open (st_h st (r_handle r))) then (RErr EBADF, st)
     else
-      let f := fetch H true d (st_h st (r_handle r)) (r_size r) (r_offset r) in
+      let f := fetch H (c_rx C) true d (st_h st (r_handle r)) (r_size r) (r_offset r) in
       match fst f with
       | RErr e => (RErr e, mk_state (upd_h (st_h st) (r_handle r) (snd f)) (st_refs st))
       | ROk b => (fst (deliver H (c_wrap C) (r_plus r) (r_size r) b true 0 (st_refs st)),
@@ -33,10 +33,10 @@ Lemma step_unfold H C d st r :
 Proof.
   unfold step. destruct (r_size r =? 0); [reflexivity|].
   destruct (c_noopendir C).
-  - destruct (fetch H false d fresh_fd (r_size r) (r_offset r)) as [[b|e] hs']; cbn [fst snd]; [|reflexivity].
+  - destruct (fetch H (c_rx C) false d fresh_fd (r_size r) (r_offset r)) as [[b|e] hs']; cbn [fst snd]; [|reflexivity].
     destruct (deliver H (c_wrap C) (r_plus r) (r_size r) b true 0 (st_refs st)); reflexivity.
   - destruct (negb (hs_open (st_h st (r_handle r)))); [reflexivity|]. cbv zeta.
-    destruct (fetch H true d (st_h st (r_handle r)) (r_size r) (r_offset r)) as [[b|e] hs']; cbn [fst snd]; [|reflexivity].
+    destruct (fetch H (c_rx C) true d (st_h st (r_handle r)) (r_size r) (r_offset r)) as [[b|e] hs']; cbn [fst snd]; [|reflexivity].
     destruct (deliver H (c_wrap C) (r_plus r) (r_size r) b true 0 (st_refs st)); reflexivity.
 Qed.
 
@@ -49,9 +49,9 @@ Proof.
   intros Hg Hi. rewrite step_unfold.
   destruct (r_size r =? 0); [exact Hi|].
   destruct (c_noopendir C).
-  - destruct (fst (fetch H false d fresh_fd (r_size r) (r_offset r))); exact Hi.
+  - destruct (fst (fetch H (c_rx C) false d fresh_fd (r_size r) (r_offset r))); exact Hi.
   - destruct (negb (hs_open (st_h st (r_handle r)))); [exact Hi|]. cbv zeta.
-    destruct (fst (fetch H true d (st_h st (r_handle r)) (r_size r) (r_offset r)));
+    destruct (fst (fetch H (c_rx C) true d (st_h st (r_handle r)) (r_size r) (r_offset r)));
       cbn [snd]; intros j; cbn [st_h]; apply upd_h_inv; try exact Hi; apply fetch_inv; exact Hg.
 Qed.
 
@@ -60,9 +60,9 @@ Proof.
   rewrite step_unfold.
   destruct (r_size r =? 0); [reflexivity|].
   destruct (c_noopendir C).
-  - destruct (fst (fetch H false d fresh_fd (r_size r) (r_offset r))); reflexivity.
+  - destruct (fst (fetch H (c_rx C) false d fresh_fd (r_size r) (r_offset r))); reflexivity.
   - destruct (negb (hs_open (st_h st (r_handle r)))) eqn:Eo; [reflexivity|]. cbv zeta.
-    destruct (fst (fetch H true d (st_h st (r_handle r)) (r_size r) (r_offset r)));
+    destruct (fst (fetch H (c_rx C) true d (st_h st (r_handle r)) (r_size r) (r_offset r)));
       cbn [snd st_h]; unfold upd_h; destruct (h =? r_handle r) eqn:E; try reflexivity;
       rewrite fetch_open; assert (h = r_handle r) by lia; subst h;
       apply Bool.negb_false_iff in Eo; rewrite Eo; reflexivity.
@@ -77,9 +77,9 @@ Proof.
                               reply_bytes (r_plus r) reply <= r_size r).
   { intros b refs Hx. pose proof (deliver_size _ _ _ _ _ _ _ _ _ Hx). lia. }
   destruct (c_noopendir C).
-  - destruct (fst (fetch H false d fresh_fd (r_size r) (r_offset r))); cbn [fst]; [apply Hd|discriminate].
+  - destruct (fst (fetch H (c_rx C) false d fresh_fd (r_size r) (r_offset r))); cbn [fst]; [apply Hd|discriminate].
   - destruct (negb (hs_open (st_h st (r_handle r)))); [discriminate|]. cbv zeta.
-    destruct (fst (fetch H true d (st_h st (r_handle r)) (r_size r) (r_offset r))); cbn [fst]; [apply Hd|discriminate].
+    destruct (fst (fetch H (c_rx C) true d (st_h st (r_handle r)) (r_size r) (r_offset r))); cbn [fst]; [apply Hd|discriminate].
 Qed.
 
 (* readdirplus takes one lookup reference per delivered entry, readdir none *)
@@ -90,10 +90,10 @@ Proof.
   intros Hw. rewrite step_unfold.
   destruct (r_size r =? 0) eqn:Ez; [intros [= <-] i; cbn; unfold cnt; destruct (r_plus r); cbn; lia|].
   destruct (c_noopendir C).
-  - destruct (fst (fetch H false d fresh_fd (r_size r) (r_offset r))); cbn [fst snd]; [|discriminate].
+  - destruct (fst (fetch H (c_rx C) false d fresh_fd (r_size r) (r_offset r))); cbn [fst snd]; [|discriminate].
     intros Hx i. cbn [st_refs]. apply (deliver_refs _ _ _ _ Hw _ _ _ _ _ Hx).
   - destruct (negb (hs_open (st_h st (r_handle r)))); [discriminate|]. cbv zeta.
-    destruct (fst (fetch H true d (st_h st (r_handle r)) (r_size r) (r_offset r))); cbn [fst snd]; [|discriminate].
+    destruct (fst (fetch H (c_rx C) true d (st_h st (r_handle r)) (r_size r) (r_offset r))); cbn [fst snd]; [|discriminate].
     intros Hx i. cbn [st_refs]. apply (deliver_refs _ _ _ _ Hw _ _ _ _ _ Hx).
 Qed.
 
@@ -103,34 +103,105 @@ Proof. rewrite skipn_app, skipn_all, Nat.sub_diag. reflexivity. Qed.
 Lemma lookups_ok_sub H (l l' : list hent) : lookups_ok H l -> (forall e, In e l' -> In e l) -> lookups_ok H l'.
 Proof. intros Hl Hs e He. apply Hl. apply Hs. exact He. Qed.
 
-(* the reply to a request that resumes at a legitimate offset: exactly the visible entries of the
-   host batch that fit the reply buffer *)
-Lemma step_resume H C pre rest st r :
+(* the batch do_readdir works on when it resumes at [rest] without the fallback: one getdents64, then
+   (on a tree with the re-read loop) further ones while the batch holds only dot records *)
+Definition batchf (X : rfixes) (size : N) (rest : list hent) : res (list hent) :=
+  match getdents_l rest size with
+  | RErr e => RErr e
+  | ROk b => if rx_refill X
+             then fst (refill (S (length (skipn (length b) rest))) (skipn (length b) rest) size b 0%nat)
+             else ROk b
+  end.
+
+Lemma gd_batchf X uc pre rest size :
+  fst (gd X uc (pre ++ rest) size (length pre)) = batchf X size rest.
+Proof.
+  unfold gd, batchf. rewrite skipn_pre.
+  destruct (getdents_l rest size) as [b|e] eqn:Hg; [|reflexivity].
+  unfold post.
+  assert (Hsk : skipn (length pre + length b) (pre ++ rest) = skipn (length b) rest).
+  { rewrite skipn_app. rewrite skipn_all2 by lia. cbn [app]. f_equal. lia. }
+  rewrite Hsk. destruct (rx_refill X); [|reflexivity].
+  pose proof (refill_fst_pos size (S (length (skipn (length b) rest))) (skipn (length b) rest) b
+                (length pre + length b)%nat 0%nat) as Hp.
+  destruct (refill _ _ size b (length pre + length b)) as [[b2|e2] n2];
+    destruct (refill _ _ size b 0%nat) as [[b3|e3] n3]; cbn [fst] in *; congruence.
+Qed.
+
+(* the reply to a request that resumes at a legitimate offset: the visible entries of that batch that fit
+   the reply buffer - or the batch's error *)
+Lemma step_resume_gen H C pre rest st r :
   good_dir (pre ++ rest) -> seekable H (pre ++ rest) -> InvSt (pre ++ rest) st ->
   lookups_ok H (pre ++ rest) -> wrap_total (c_wrap C) ->
   (c_noopendir C = false -> hs_open (st_h st (r_handle r)) = true) ->
   off_at pre (r_offset r) -> r_size r <> 0 ->
-  match rest with e :: _ => host_reclen e <= r_size r | [] => True end ->
   fst (step H C (pre ++ rest) st r) =
-  ROk (map (mkd H (c_wrap C) (r_plus r))
-           (take_fit (dirent_size (r_plus r)) (r_size r) (visible (take_fit host_reclen (r_size r) rest)))).
+  match batchf (c_rx C) (r_size r) rest with
+  | RErr e => RErr e
+  | ROk B => fst (deliver H (c_wrap C) (r_plus r) (r_size r) B true 0 (st_refs st))
+  end.
 Proof.
-  intros Hg Hs Hi Hl Hw Hop Ho Hnz Hfit. rewrite step_unfold.
+  intros Hg Hs Hi Hl Hw Hop Ho Hnz. rewrite step_unfold.
   destruct (r_size r =? 0) eqn:Ez; [lia|].
-  assert (Hsub : lookups_ok H (take_fit host_reclen (r_size r) rest)).
-  { apply (lookups_ok_sub H (pre ++ rest)); [exact Hl|]. intros e He.
-    destruct (take_fit_prefix host_reclen rest (r_size r)) as [s Hs']. apply in_or_app. right.
-    rewrite Hs'. apply in_or_app. left. exact He. }
-  assert (Hgd : forall uc, fst (gd uc (pre ++ rest) (r_size r) (length pre)) = ROk (take_fit host_reclen (r_size r) rest)).
-  { intros uc. unfold gd. rewrite skipn_pre, (getdents_fits _ _ Hfit). reflexivity. }
-  assert (Hdel : forall refs, fst (deliver H (c_wrap C) (r_plus r) (r_size r) (take_fit host_reclen (r_size r) rest) true 0 refs) =
-     ROk (map (mkd H (c_wrap C) (r_plus r))
-              (take_fit (dirent_size (r_plus r)) (r_size r) (visible (take_fit host_reclen (r_size r) rest))))).
-  { intros refs. rewrite (deliver_spec _ _ _ _ _ _ _ _ Hsub Hw). rewrite N.sub_0_r. reflexivity. }
   destruct (c_noopendir C).
-  - rewrite (fetch_resume H false pre rest fresh_fd _ _ Hg Hs I Ho), Hgd. cbn [fst]. apply Hdel.
+  - rewrite (fetch_resume H (c_rx C) false pre rest fresh_fd _ _ Hg Hs I Ho), gd_batchf.
+    destruct (batchf (c_rx C) (r_size r) rest); reflexivity.
   - rewrite (Hop eq_refl). cbn [negb]. cbv zeta.
-    rewrite (fetch_resume H true pre rest _ _ _ Hg Hs (Hi _) Ho), Hgd. cbn [fst]. apply Hdel.
+    rewrite (fetch_resume H (c_rx C) true pre rest _ _ _ Hg Hs (Hi _) Ho), gd_batchf.
+    destruct (batchf (c_rx C) (r_size r) rest); reflexivity.
+Qed.
+
+Lemma step_resume H C pre rest st r B :
+  good_dir (pre ++ rest) -> seekable H (pre ++ rest) -> InvSt (pre ++ rest) st ->
+  lookups_ok H (pre ++ rest) -> wrap_total (c_wrap C) ->
+  (c_noopendir C = false -> hs_open (st_h st (r_handle r)) = true) ->
+  off_at pre (r_offset r) -> r_size r <> 0 ->
+  batchf (c_rx C) (r_size r) rest = ROk B -> (forall e, In e B -> In e rest) ->
+  fst (step H C (pre ++ rest) st r) =
+  ROk (map (mkd H (c_wrap C) (r_plus r)) (take_fit (dirent_size (r_plus r)) (r_size r) (visible B))).
+Proof.
+  intros Hg Hs Hi Hl Hw Hop Ho Hnz HB Hsub.
+  rewrite (step_resume_gen H C pre rest st r Hg Hs Hi Hl Hw Hop Ho Hnz), HB.
+  rewrite (deliver_spec _ _ _ _ B); [rewrite N.sub_0_r; reflexivity| |exact Hw].
+  apply (lookups_ok_sub H (pre ++ rest)); [exact Hl|]. intros e He. apply in_or_app. right. apply Hsub. exact He.
+Qed.
+
+Lemma step_resume_err H C pre rest st r e :
+  good_dir (pre ++ rest) -> seekable H (pre ++ rest) -> InvSt (pre ++ rest) st ->
+  lookups_ok H (pre ++ rest) -> wrap_total (c_wrap C) ->
+  (c_noopendir C = false -> hs_open (st_h st (r_handle r)) = true) ->
+  off_at pre (r_offset r) -> r_size r <> 0 ->
+  batchf (c_rx C) (r_size r) rest = RErr e ->
+  fst (step H C (pre ++ rest) st r) = RErr e.
+Proof.
+  intros Hg Hs Hi Hl Hw Hop Ho Hnz HB.
+  rewrite (step_resume_gen H C pre rest st r Hg Hs Hi Hl Hw Hop Ho Hnz), HB. reflexivity.
+Qed.
+
+(* shape of the batch: a segment of [rest] after skipped records that are all dots *)
+Lemma batchf_shape X size rest B :
+  batchf X size rest = ROk B ->
+  exists K S, rest = K ++ B ++ S /\ visible K = [].
+Proof.
+  unfold batchf. destruct (getdents_l rest size) as [b|e] eqn:Hg; [|discriminate].
+  destruct (getdents_prefix _ _ _ Hg) as [s Hs].
+  destruct (rx_refill X).
+  - rewrite Hs, skipn_app_len.
+    pose proof (refill_fst_pos size (S (length s)) s b 0%nat (length (@nil hent) + length b)%nat) as Hp.
+    destruct (refill (S (length s)) s size b 0%nat) as [[b2|e2] n2]; cbn [fst]; [|discriminate].
+    intros [= <-].
+    destruct (refill (S (length s)) s size b (length (@nil hent) + length b)) as [[b3|e3] n3] eqn:Hr3;
+      cbn [fst] in Hp; [|discriminate].
+    injection Hp as <-.
+    destruct (refill_segment size _ [] b s b2 n3 Hr3) as (K & s2 & HK & _ & Hv).
+    exists K, s2. split; [rewrite <- HK; reflexivity|exact Hv].
+  - intros [= <-]. exists [], s. split; [exact Hs|reflexivity].
+Qed.
+
+Lemma batchf_sub X size rest B : batchf X size rest = ROk B -> forall e, In e B -> In e rest.
+Proof.
+  intros HB e He. destruct (batchf_shape _ _ _ _ HB) as (K & S & -> & _).
+  apply in_or_app. right. apply in_or_app. left. exact He.
 Qed.
 
 (* histories *)
